@@ -95,12 +95,11 @@ PLAN = {
     "C06": dict(
         title="Objective functions return the documented loss and gradient",
         level="proof",
-        verus=["C06_objectives.rs", "C06_loss_folds.rs"],
+        verus=["C06_objectives.rs", "C06_loss_whole.rs"],
         kani=True,
         native_checks=[("objective.derivative", "bounded native grid: for AE / MSE / BCE / KL the reported gradient against central difference quotients of the reported loss, both ranks")],
-        undecided_clauses=["the loss statement of every objective is proved for every length (units *.loss.fold); the GRADIENT's map over the elements (nested zips, both ranks) is "
-                           "covered by the closure units plus a bounded structural harness (3 elements); AE/MSE finiteness is stated for |a|,|p| <= 1e18 "
-                           "(larger finite inputs overflow the exact result)"],
+        undecided_clauses=["the whole loss() of every objective is proved for every size of both ranks (units *.loss.whole) against contracts of Tensor::single / triple / clamp / get_flat; "
+                           "AE/MSE finiteness is stated for |a|,|p| <= 1e18 (larger finite inputs overflow the exact result)"],
     ),
     "C07": dict(
         title="Activations: defined function, exact derivative, total on finite floats",
@@ -240,7 +239,7 @@ TRUSTED_BASE = [
     "Kani 0.68 + CBMC 6.11 + CaDiCaL (soundness; bit-precise IEEE-754 binary32 model)",
     "tools/extract.py, tools/mirror.py (mechanical extraction; self-checked by anchors, loop counts and canaries)",
     "std iterator adapters visit elements in order (units that are closure bodies do not cover the adapter chain; whole-function units replace each adapter "
-    "form by an index loop with that order: rewrites R12, R15, R17, R20-R46, every application logged under extraction_drops)",
+    "form by an index loop with that order: rewrites R12, R15, R17, R20-R55, every application logged under extraction_drops)",
     "rayon's par_chunks / into_par_iter().map().collect() / flat_map().collect() keep input order like their std counterparts (C05's subject; assumed by R25, R32, R34)",
     "abstract operations in the network-level units (tensor algebra, per-layer forward/backward functions, optimizer step, objective): uninterpreted; their meaning is decided by the units of C01/C02/C03/C06/C07/C14/C15",
     "`//@assume-region` contracts (listed in extraction_drops as ASSUMED) and `assume_specification`s for std functions vstd does not specify (<[T]>::swap, f32::is_nan, libm)",
@@ -294,16 +293,18 @@ MANIFEST_TEXT = {
     ),
     "C06": dict(
         category="proof",
-        technique="Verus formula contracts on the 21 loss/gradient closure bodies and on the 7 whole loss statements (every length) + Kani harnesses over the full in-domain f32 range for finiteness and clamping",
+        technique="Verus formula contracts on the 21 loss/gradient closure bodies and on the 7 WHOLE loss() functions (every size, both ranks, clamp) + Kani harnesses over the full in-domain f32 range for finiteness and clamping",
         design_ref="DESIGN.md §5 C06",
         text="Verus proves for every element of every shape that the loss term and both rank copies of the gradient closure of all seven "
              "objectives compute the documented formula (gradient = textbook derivative for AE, MSE, BCE, KL). Kani decides, through the real "
              "Function::loss on singleton tensors of both ranks and for every in-domain f32 incl. exactly 0 and 1, that the loss is finite, the "
              "gradient has the prediction's shape and the clamped gradient is the unclamped one limited to the interval (complete over the "
-             "element domain, ln by contract). Verus also proves the WHOLE loss statement of each objective for tensors of every length (units *.loss.fold, R53): the "
+             "element domain, ln by contract). Verus also proves the WHOLE `loss()` of each objective for tensors of every size (units *.loss.whole; R53, R54, R55): the loss is the "
              "documented per-element terms over the flattened target / prediction pairs, summed in index order, then the documented outer operation (mean, /n inside, "
-             "root of the mean, negation). The gradient's map over the elements (flat == 3-D) stays a bounded harness.",
-        note="F1 uninterpreted floats in Verus; F2 ln contract in Kani; derivative table is mathematics (F3); std's in-order float sum is an uninterpreted function of the term sequence (R27); gradient map structure bounded to 3 elements.",
+             "root of the mean, negation); on flat pairs and on 3-D pairs the gradient has one entry per zipped position at every nesting level (the prediction's shape when "
+             "the shapes agree), its shape field describes its data, and every entry is the documented per-element formula - limited to the clamp interval when a clamp is "
+             "configured, unchanged otherwise; mixed ranks panic (outside the stated domain). The Kani fold harnesses stay as bounded cross-checks.",
+        note="F1 uninterpreted floats in Verus; F2 ln contract in Kani; derivative table is mathematics (F3); std's in-order float sum is an uninterpreted function of the term sequence (R27); Tensor::single / triple / clamp / get_flat enter the whole-function units by contract (clamp: element-wise f32::clamp keeping the nesting).",
     ),
     "C07": dict(
         category="proof",
